@@ -3,6 +3,7 @@
 package innerring
 
 import (
+	"bytes"
 	"fmt"
 	"math/rand/v2"
 	"slices"
@@ -78,6 +79,10 @@ type vf37Auth struct {
 	TokenKind   string   `json:"token_kind"`
 	TokenValid  bool     `json:"token_valid"`
 	Why         []string `json:"token_invalid_because"`
+	// v2 tokens: contexts of the token (and of the root token of a delegation chain),
+	// containers named by role
+	Contexts     []string `json:"token_contexts,omitempty"`
+	RootContexts []string `json:"root_token_contexts,omitempty"`
 }
 
 func (a vf37Auth) authorised() bool { return a.DirectValid || a.TokenValid }
@@ -91,6 +96,8 @@ type vf37Env struct {
 	stranger *keys.PrivateKey
 	epoch    uint64
 	now      time.Time
+	// containers of the owner known to the chain
+	siblings []cid.ID
 }
 
 // genAuth builds a witness for data. verbV1/verbV2 are the verbs the operation needs;
@@ -201,53 +208,204 @@ func (e *vf37Env) genV1(data []byte, kind string, target *cid.ID) vf37Auth {
 	return a
 }
 
-func (e *vf37Env) genV2(data []byte, kind string, target *cid.ID, newID *cid.ID) vf37Auth {
+var vf37VerbPoolV2 = []sessionv2.Verb{sessionv2.VerbObjectPut, sessionv2.VerbObjectGet, sessionv2.VerbObjectHead, sessionv2.VerbObjectSearch, sessionv2.VerbObjectDelete, sessionv2.VerbObjectRange,
+	sessionv2.VerbContainerPut, sessionv2.VerbContainerDelete, sessionv2.VerbContainerSetEACL, sessionv2.VerbContainerSetAttribute, sessionv2.VerbContainerRemoveAttribute}
+
+// vf37CtxVerdict is the oracle's reading of "a session token … for that verb and
+// container": some context that applies to the target container (the wildcard context or
+// the context of exactly this container; with no target – creation – any context) must
+// delegate the needed verb itself. A verb delegated for another container, or another
+// verb delegated for this container, is not an authorisation. Returns nil if the contexts
+// authorise, else the reasons.
+func vf37CtxVerdict(ctxs []vf37Ctx, need sessionv2.Verb, target *cid.ID) []string {
+	anyNeed, anyApplicable := false, false
+	for _, c := range ctxs {
+		has := slices.Contains(c.Verbs, need)
+		app := target == nil || c.Cnr.IsZero() || c.Cnr == *target
+		if has && app {
+			return nil
+		}
+		anyNeed = anyNeed || has
+		anyApplicable = anyApplicable || app
+	}
+	var why []string
+	if !anyNeed {
+		why = append(why, "verb")
+	}
+	if !anyApplicable {
+		why = append(why, "container")
+	}
+	if len(why) == 0 {
+		why = append(why, "verb-delegated-for-other-container-only")
+	}
+	return why
+}
+
+// vf37NormCtxs brings a context list into the form the SDK accepts (sorted unique verbs,
+// contexts ordered by container, an explicit context never repeats exactly the wildcard's
+// verb set – then one object verb that the oracle does not care about is added).
+func vf37NormCtxs(ctxs []vf37Ctx) []vf37Ctx {
+	res := make([]vf37Ctx, 0, len(ctxs))
+	for _, c := range ctxs {
+		vs := slices.Clone(c.Verbs)
+		slices.Sort(vs)
+		res = append(res, vf37Ctx{Cnr: c.Cnr, Verbs: slices.Compact(vs)})
+	}
+	sort.SliceStable(res, func(i, j int) bool { return bytes.Compare(res[i].Cnr[:], res[j].Cnr[:]) < 0 })
+	if len(res) > 0 && res[0].Cnr.IsZero() {
+		for i := 1; i < len(res); i++ {
+			if !slices.Equal(res[i].Verbs, res[0].Verbs) {
+				continue
+			}
+			for _, f := range []sessionv2.Verb{sessionv2.VerbObjectSearch, sessionv2.VerbObjectRange, sessionv2.VerbObjectHead, sessionv2.VerbObjectGet, sessionv2.VerbObjectPut, sessionv2.VerbObjectDelete} {
+				if !slices.Contains(res[i].Verbs, f) {
+					res[i].Verbs = append(res[i].Verbs, f)
+					slices.Sort(res[i].Verbs)
+					break
+				}
+			}
+		}
+	}
+	return res
+}
+
+// vf37CtxString renders contexts for replay descriptions with the containers named by
+// their role.
+func (e *vf37Env) vf37CtxString(ctxs []vf37Ctx, target, newID *cid.ID) []string {
+	var res []string
+	for _, c := range ctxs {
+		res = append(res, fmt.Sprintf("%s:%v", e.cnrRole(c.Cnr, target, newID), c.Verbs))
+	}
+	return res
+}
+
+func (e *vf37Env) cnrRole(id cid.ID, target, newID *cid.ID) string {
+	switch {
+	case id.IsZero():
+		return "wildcard"
+	case target != nil && id == *target:
+		return "target"
+	case newID != nil && id == *newID:
+		return "new-id"
+	case slices.Contains(e.siblings, id):
+		return "sibling"
+	}
+	return "other"
+}
+
+// genV2Contexts builds a token with several contexts: a mix of the wildcard, the target
+// (or the ID of the container being created), other containers of the same owner and
+// unrelated containers, each with its own verb set that may or may not contain the needed
+// verb – so the verb and the container can meet in one context, only via the wildcard, or
+// live in different contexts.
+func (e *vf37Env) genV2Contexts(need sessionv2.Verb, target, newID *cid.ID) []vf37Ctx {
 	rng := e.rng
-	a := vf37Auth{Mode: "session-v2", TokenKind: "v2", TokenValid: true}
-	bad := func(w string) { a.TokenValid = false; a.Why = append(a.Why, w) }
-	need := vf37VerbsV2(kind)
-	subj := vf37Key(rng)
-	o := vf37TokV2Opts{Verbs: []sessionv2.Verb{need}, Iat: e.now.Add(-time.Minute), Nbf: e.now.Add(-time.Minute), Exp: e.now.Add(time.Hour), Issuer: e.owner, Subject: vf37User(subj)}
-	// verbs
-	switch rng.IntN(5) {
-	case 0, 1:
-		// a set without the needed verb
-		pool := []sessionv2.Verb{sessionv2.VerbObjectPut, sessionv2.VerbObjectGet, sessionv2.VerbObjectHead, sessionv2.VerbObjectDelete,
-			sessionv2.VerbContainerPut, sessionv2.VerbContainerDelete, sessionv2.VerbContainerSetEACL, sessionv2.VerbContainerSetAttribute, sessionv2.VerbContainerRemoveAttribute}
+	var cnrs []cid.ID
+	if rng.IntN(10) < 3 {
+		cnrs = append(cnrs, cid.ID{})
+	}
+	if target != nil {
+		if rng.IntN(10) < 7 {
+			cnrs = append(cnrs, *target)
+		}
+	} else if newID != nil && rng.IntN(10) < 4 {
+		cnrs = append(cnrs, *newID)
+	}
+	for _, s := range e.siblings {
+		if (target == nil || s != *target) && rng.IntN(10) < 6 {
+			cnrs = append(cnrs, s)
+		}
+	}
+	for n := rng.IntN(3); n > 0 || len(cnrs) < 2; n-- {
+		cnrs = append(cnrs, cid.ID(vf37Bytes(rng, 32)))
+	}
+	ctxs := make([]vf37Ctx, 0, len(cnrs))
+	for _, id := range cnrs {
 		var vs []sessionv2.Verb
-		for _, v := range pool {
-			if v != need && rng.IntN(3) == 0 {
+		for _, v := range vf37VerbPoolV2 {
+			if v != need && rng.IntN(4) == 0 {
 				vs = append(vs, v)
 			}
+		}
+		if rng.IntN(2) == 0 {
+			vs = append(vs, need)
 		}
 		if len(vs) == 0 {
 			vs = []sessionv2.Verb{sessionv2.VerbObjectGet}
 		}
-		o.Verbs = vs
-		bad("verb")
-		a.Detail = append(a.Detail, fmt.Sprintf("verbs-without-needed=%v", vs))
-	case 2:
-		vs := []sessionv2.Verb{sessionv2.VerbObjectGet, need}
-		sort.Slice(vs, func(i, j int) bool { return vs[i] < vs[j] })
-		o.Verbs = vs
+		ctxs = append(ctxs, vf37Ctx{Cnr: id, Verbs: vs})
 	}
-	// container of the single context
-	switch rng.IntN(4) {
-	case 0:
-		if target != nil {
-			o.Cnr = *target
-			a.Detail = append(a.Detail, "context-for-target")
-		} else if newID != nil {
-			o.Cnr = *newID
-			a.Detail = append(a.Detail, "context-for-new-id")
+	return vf37NormCtxs(ctxs)
+}
+
+func (e *vf37Env) genV2(data []byte, kind string, target *cid.ID, newID *cid.ID) vf37Auth {
+	rng := e.rng
+	a := vf37Auth{Mode: "session-v2", TokenKind: "v2", TokenValid: true}
+	bad := func(w ...string) { a.TokenValid = false; a.Why = append(a.Why, w...) }
+	need := vf37VerbsV2(kind)
+	subj := vf37Key(rng)
+	o := vf37TokV2Opts{Iat: e.now.Add(-time.Minute), Nbf: e.now.Add(-time.Minute), Exp: e.now.Add(time.Hour), Issuer: e.owner, Subject: vf37User(subj)}
+	var ctxs []vf37Ctx
+	if rng.IntN(100) < 45 {
+		ctxs = e.genV2Contexts(need, target, newID)
+		// low-cardinality tag: where the needed verb lives
+		var in []string
+		for _, c := range ctxs {
+			if role := e.cnrRole(c.Cnr, target, newID); slices.Contains(c.Verbs, need) && !slices.Contains(in, role) {
+				in = append(in, role)
+			}
 		}
-	case 1:
-		o.Cnr = cid.ID(vf37Bytes(rng, 32))
-		a.Detail = append(a.Detail, "context-for-other-container")
-		if target != nil {
-			bad("container")
+		sort.Strings(in)
+		a.Detail = append(a.Detail, "multi-context:needed-verb-in="+strings.Join(in, "+"))
+	} else {
+		single := vf37Ctx{Verbs: []sessionv2.Verb{need}}
+		// verbs
+		switch rng.IntN(5) {
+		case 0, 1:
+			// a set without the needed verb
+			var vs []sessionv2.Verb
+			for _, v := range vf37VerbPoolV2 {
+				if v != need && rng.IntN(3) == 0 {
+					vs = append(vs, v)
+				}
+			}
+			if len(vs) == 0 {
+				vs = []sessionv2.Verb{sessionv2.VerbObjectGet}
+			}
+			single.Verbs = vs
+			a.Detail = append(a.Detail, fmt.Sprintf("verbs-without-needed=%v", vs))
+		case 2:
+			single.Verbs = []sessionv2.Verb{sessionv2.VerbObjectGet, need}
 		}
-		// creation: the statement names no container to compare with, the oracle does not judge this
+		// container of the single context
+		switch rng.IntN(4) {
+		case 0:
+			if target != nil {
+				single.Cnr = *target
+				a.Detail = append(a.Detail, "context-for-target")
+			} else if newID != nil {
+				single.Cnr = *newID
+				a.Detail = append(a.Detail, "context-for-new-id")
+			}
+		case 1:
+			single.Cnr = cid.ID(vf37Bytes(rng, 32))
+			a.Detail = append(a.Detail, "context-for-other-container")
+			// creation: the statement names no container to compare with, the oracle does not judge this
+		case 2:
+			// a real container of the same owner, but not the one the request is about
+			if target != nil && len(e.siblings) > 0 {
+				if s := e.siblings[rng.IntN(len(e.siblings))]; s != *target {
+					single.Cnr = s
+					a.Detail = append(a.Detail, "context-for-sibling-container")
+				}
+			}
+		}
+		ctxs = vf37NormCtxs([]vf37Ctx{single})
+	}
+	o.Ctxs = ctxs
+	a.Contexts = e.vf37CtxString(ctxs, target, newID)
+	if why := vf37CtxVerdict(ctxs, need, target); why != nil {
+		bad(why...)
 	}
 	switch rng.IntN(7) {
 	case 0:
@@ -268,7 +426,7 @@ func (e *vf37Env) genV2(data []byte, kind string, target *cid.ID, newID *cid.ID)
 		o.BreakSig = true
 		bad("token-signature")
 		a.Detail = append(a.Detail, "token-signature-broken")
-	case 2:
+	case 2, 3:
 		// delegation: owner (or a stranger) -> middle -> subject
 		middle := vf37Key(rng)
 		root := e.owner
@@ -281,6 +439,50 @@ func (e *vf37Env) genV2(data []byte, kind string, target *cid.ID, newID *cid.ID)
 		}
 		ro := o
 		ro.Issuer, ro.Subject, ro.BreakSig = root, vf37User(middle), false
+		switch rng.IntN(4) {
+		case 0:
+			// the root token delegates more than the final one passes on
+			wide := make([]vf37Ctx, 0, len(ctxs))
+			for _, c := range ctxs {
+				vs := slices.Clone(c.Verbs)
+				for _, v := range vf37VerbPoolV2 {
+					if !slices.Contains(vs, v) && rng.IntN(3) == 0 {
+						vs = append(vs, v)
+					}
+				}
+				wide = append(wide, vf37Ctx{Cnr: c.Cnr, Verbs: vs})
+			}
+			ro.Ctxs = vf37NormCtxs(wide)
+			a.Detail = append(a.Detail, "root-delegates-more")
+		case 1:
+			// the root token does not delegate the needed verb for the target; only the
+			// re-issued token claims it
+			changed := false
+			narrow := make([]vf37Ctx, 0, len(ctxs))
+			for _, c := range ctxs {
+				vs := slices.Clone(c.Verbs)
+				if (target == nil || c.Cnr.IsZero() || c.Cnr == *target) && slices.Contains(vs, need) {
+					vs = slices.DeleteFunc(vs, func(v sessionv2.Verb) bool { return v == need })
+					if len(vs) == 0 {
+						vs = []sessionv2.Verb{sessionv2.VerbObjectGet}
+					}
+					changed = true
+				}
+				narrow = append(narrow, vf37Ctx{Cnr: c.Cnr, Verbs: vs})
+			}
+			if changed {
+				ro.Ctxs = vf37NormCtxs(narrow)
+				a.Detail = append(a.Detail, "root-lacks-needed-verb")
+			}
+		}
+		// "a session token from the owner for that verb and container": the token the
+		// owner signed is the root of the chain
+		if why := vf37CtxVerdict(ro.Ctxs, need, target); why != nil {
+			for _, w := range why {
+				bad("root-token-" + w)
+			}
+		}
+		a.RootContexts = e.vf37CtxString(ro.Ctxs, target, newID)
 		origin, _ := vf37TokenV2(ro)
 		o.Issuer = middle
 		o.Origin = &origin
@@ -332,7 +534,7 @@ func TestVerif_C37(t *testing.T) {
 		finalID := cid.NewFromMarshalledContainer(final.Marshal())
 		ch.containers[finalID] = final.Marshal()
 
-		e := &vf37Env{rng: rng, ch: ch, n: n, owner: w.Owner, ownerID: w.OwnerID, stranger: vf37Key(rng), epoch: ch.epoch, now: n.now}
+		e := &vf37Env{rng: rng, ch: ch, n: n, owner: w.Owner, ownerID: w.OwnerID, stranger: vf37Key(rng), epoch: ch.epoch, now: n.now, siblings: []cid.ID{w.CnrID, finalID}}
 		for qi := 0; qi < perWorld; qi++ {
 			vf37OneRequest(r, e, w, finalID, allowEC, wi, qi)
 		}
